@@ -106,6 +106,14 @@ def run(tier, seed, replay=None):
             vals = [trng.choice([40000, 65535, 65536, 70000, 110000, 98304 + trng.randrange(32768), 0x18000, 0x2FFFF]) for _ in range(3)]
             text = text.replace("endtable;", "cJust1 = glyphid(2) {justify.stretch = %dm; breakweight = 20};\ncJust2 = glyphid(3) {justify.stretch = %dm; justify.shrink = %dm};\nendtable;" % (vals[0], vals[1], vals[2] % 30000), 1)   # (shrink has no high word: at most 32767)
             prog.raw_gdl = text
+        if ci % 7 == 6 and not collision:
+            # more than 255 glyph attributes (Glat 2 is written whatever was requested) and a positioning rule whose ACTION reads
+            # attributes numbered above 255: the rule code needs the 16-bit attribute operand also when Silf stays at 2.0 (-v2 -p)
+            text = prog.raw_gdl if getattr(prog, "raw_gdl", None) else prog.gdl()
+            nk = trng.choice([257, 262, 300])
+            text = text.replace("endtable;", "cMany = glyphid(2..%d) {%s};\nendtable;" % (prog.nglyphs - 1, "; ".join("k%03d = %d" % (j, 1000 + j) for j in range(nk))), 1)
+            text += "table(pos) cMany {advance.x = k%03d; shift.y = k%03d - k%03d}; endtable;\n" % (nk - 1, nk - 2, trng.randrange(nk))
+            prog.raw_gdl = text
         gen.write_case(prog, d)
         fonts = {}
         for v in REQ:
